@@ -809,7 +809,52 @@ def live_bounds_case(variant, verbose=False):
     return prob
 
 
+def two_channel_props_case(verbose=False):
+    """two channels recorded side by side (same rate, cadences and times: their data files carry the same names) under
+    one top-level directory, one reader: the per-sample properties of a channel are those of ITS file at that sample
+    (session uuid, sequence number), whichever channel was asked before; a sample without a file raises IOError"""
+    import digital_rf
+    root = common.scratch_dir("c08two-")
+    top = os.path.join(root, "top")
+    n = 100
+    k0 = 1500000000 * n
+    for ch, uuid, lens in (("cha", "uuid-of-cha", [(250, 0)]), ("chb", "uuid-of-chb", [(120, 0)])):
+        d = os.path.join(top, ch)
+        os.makedirs(d)
+        w = digital_rf.DigitalRFWriter(d, np.dtype("i2"), 3600, 1000, k0, n, 1, uuid_str=uuid, is_complex=False, is_continuous=False,
+                                       num_subchannels=1, marching_periods=False)
+        off = 0
+        for ln, gap in lens:
+            w.rf_write(np.arange(ln, dtype="i2"), off + gap)
+            off += gap + ln
+        w.close()
+    r = digital_rf.DigitalRFReader(top)
+    prob = None
+    for order in (("cha", "chb"), ("chb", "cha")):
+        for s in (k0 + 5, k0 + 105, k0 + 205):
+            for ch in order:
+                want_uuid = "uuid-of-" + ch
+                has = (s - k0) < (250 if ch == "cha" else 120)
+                try:
+                    p = r.get_properties(ch, sample=s)
+                    got = (str(p["uuid_str"]), int(p["sequence_num"]))
+                except IOError:
+                    got = "IOError"
+                want = (want_uuid, (s - k0) // 100) if has else "IOError"
+                if verbose:
+                    print("get_properties(%s, sample=k0+%d) -> %s (expected %s)" % (ch, s - k0, got, want))
+                if prob is None and got != want:
+                    prob = ({"channel": ch, "sample_offset": s - k0, "asked_in_order": list(order)}, want, got)
+    shutil.rmtree(root, True)
+    return prob
+
+
 def live_bounds_leg(res):
+    res.count("two-channels-one-reader-per-sample-properties")
+    prob = two_channel_props_case()
+    if prob:
+        res.violation("per-sample-properties-of-another-channel", "get_properties(channel, sample=) of one reader over two channels "
+                      "recorded side by side does not report the channel's own file", dict(prob[0], two_channel_props=True), prob[1], prob[2])
     for variant in ((False, 0), (True, 0), (True, 1)):
         res.count("reader-kept-while-channel-changes")
         prob = live_bounds_case(variant)
@@ -902,6 +947,11 @@ def run(res):
 
 
 def replay(res, rp):
+    if isinstance(rp.get("input"), dict) and rp["input"].get("two_channel_props"):
+        common.use_impl()
+        prob = two_channel_props_case(verbose=True)
+        print("replay verdict:", "STILL VIOLATING" if prob else "no longer violating")
+        return 1 if prob else 0
     if isinstance(rp.get("input"), dict) and "live_bounds" in rp["input"]:
         common.use_impl()
         v = rp["input"]["live_bounds"]
